@@ -18,14 +18,5 @@ class C02(FloorProp):
     assumptions = FloorProp.base_assumptions + [
         'a part is "reported lost" when a shutdown callback receives it with is_failure=True']
 
-    def sanity(self, agg, tier):
-        errs = []
-        for k in ('fail', 'shutdown', 'block', 'addres', 'adjust', 'rewire', 'wo'):
-            if agg.get('faults', {}).get(k, 0) == 0:
-                errs.append(f'C02: fault kind {k} never fired')
-        if agg.get('parts_lost', 0) == 0 and agg.get('oracle', {}).get('C02.a', 0) > 100000:
-            pass
-        return errs
-
 
 PROP = C02()
